@@ -38,6 +38,7 @@ func (w *writer) emit(ev any) {
 	w.w.Write(b)
 	w.w.WriteByte('\n')
 	w.n++
+	resetArgs()
 }
 
 func (w *writer) close() {
@@ -72,6 +73,52 @@ func safeCall(f func()) string {
 
 var watchdog = 20 * time.Second
 
+// Argument registry (input immutability, C12): every slice handed to the library is produced by one of the
+// conversion helpers below; each is registered together with a deep snapshot, and argsUnchanged() compares the
+// live slices (the very backing arrays the library received) with their snapshots. The writer clears the
+// registry after every emitted event.
+type argRec struct {
+	live64, snap64 clipper.Path64
+	liveD, snapD   clipper.PathD
+}
+
+var argRegistry []argRec
+
+func regPath64(p clipper.Path64) clipper.Path64 {
+	if len(argRegistry) < 4096 {
+		argRegistry = append(argRegistry, argRec{live64: p, snap64: append(clipper.Path64{}, p...)})
+	}
+	return p
+}
+
+func regPathD(p clipper.PathD) clipper.PathD {
+	if len(argRegistry) < 4096 {
+		argRegistry = append(argRegistry, argRec{liveD: p, snapD: append(clipper.PathD{}, p...)})
+	}
+	return p
+}
+
+func resetArgs() { argRegistry = argRegistry[:0] }
+
+func argsUnchanged() bool {
+	for _, a := range argRegistry {
+		if len(a.live64) != len(a.snap64) || len(a.liveD) != len(a.snapD) {
+			return false
+		}
+		for i := range a.live64 {
+			if a.live64[i] != a.snap64[i] {
+				return false
+			}
+		}
+		for i := range a.liveD {
+			if a.liveD[i] != a.snapD[i] {
+				return false
+			}
+		}
+	}
+	return true
+}
+
 func to64(p Path) clipper.Path64 {
 	if p == nil {
 		return nil
@@ -80,7 +127,7 @@ func to64(p Path) clipper.Path64 {
 	for i, q := range p {
 		out[i] = clipper.Point64{X: q[0], Y: q[1]}
 	}
-	return out
+	return regPath64(out)
 }
 
 func toPaths64(s Paths) clipper.Paths64 {
